@@ -93,6 +93,9 @@ def T(x):
     return x if isinstance(x, Term) else Term.const(x)
 
 
+SIGS = {}  # callable name -> positional parameter names (set per analysed program by report.Ctx)
+
+
 # ---------------------------------------------------------------- (a // b) * b  ==  a - a % b
 def _split_top(text, sep):
     out, depth, cur, i = [], 0, "", 0
@@ -341,8 +344,13 @@ class Evaluator:
                 hi = self.ev(node.slice.upper).key() if node.slice.upper else ""
                 st = self.ev(node.slice.step).key() if node.slice.step else ""
                 return Term.atom(f"slice({base.key()},{lo}:{hi}:{st})")
+            bk = base.key()
+            if isinstance(node.slice, ast.Constant) and isinstance(node.slice.value, str) and node.slice.value.isidentifier() \
+                    and (bk == "this" or bk.startswith("this.")) and len(base.p) == 1:
+                # construct contexts are attribute dictionaries: ctx["name"] is ctx.name
+                return Term.atom(bk + "." + node.slice.value)
             idx = self.ev(node.slice)
-            return Term.atom(f"sub({base.key()},{idx.key()})")
+            return Term.atom(f"sub({bk},{idx.key()})")
         if isinstance(node, ast.IfExp):
             return Term.atom(f"ite({self.cond(node.test)},{self.ev(node.body).key()},{self.ev(node.orelse).key()})")
         if isinstance(node, ast.Lambda):
@@ -368,7 +376,7 @@ class Evaluator:
             if args[0].is_const() and args[0].value().denominator == 1:
                 return args[0]
             return Term.atom(f"int({args[0].key()})")
-        if name == "len" and len(args) == 1:
+        if name in ("len", "len_") and len(args) == 1:  # construct's len_ is len on the context value
             return Term.atom(f"len({args[0].key()})")
         if name == "abs" and len(args) == 1 and args[0].is_const():
             return Term.const(abs(args[0].value()))
@@ -392,9 +400,22 @@ class Evaluator:
             root = fname.split(".")[0]
             if root in self.env:
                 base = self.ev(f.value)
-                fname = f"({base.key()}).{f.attr}"
-        kw = [f"{k.arg}={self.ev(k.value).key()}" for k in node.keywords if k.arg]
-        return Term.atom(f"{fname}(" + ",".join([a.key() for a in args] + sorted(kw)) + ")")
+                bk = base.key()
+                fname = f"{bk}.{f.attr}" if (bk == "this" or (bk.startswith("this.") and all(x.isidentifier() for x in bk.split(".")))) else f"({bk}).{f.attr}"
+            elif root in self.this_names:
+                fname = "this." + fname.split(".", 1)[1]  # method of the context / adapted object: parameter name is irrelevant
+        kwd = {k.arg: self.ev(k.value).key() for k in node.keywords if k.arg}
+        pos = [a.key() for a in args]
+        cname = f.id if isinstance(f, ast.Name) else (f.attr if isinstance(f, ast.Attribute) else None)
+        params = SIGS.get(cname) if cname and not any(isinstance(a, ast.Starred) for a in node.args) else None
+        if params is not None and kwd and len(pos) <= len(params):
+            # f(a, q=c, p=b) with signature (x, p, q): the keywords that continue the positional prefix are rendered in place
+            i = len(pos)
+            while i < len(params) and params[i] in kwd:
+                pos.append(kwd.pop(params[i]))
+                i += 1
+        kw = [f"{k}={v}" for k, v in kwd.items()]
+        return Term.atom(f"{fname}(" + ",".join(pos + sorted(kw)) + ")")
 
     # ------------------------------------------------------------ conditions
     def cond(self, node):
@@ -442,9 +463,9 @@ def inline_call(fn, call, ev, ev_factory=None):
         if not isinstance(last, ast.Return) or last.value is None:
             return None
         body_ret = last.value
+        stmts = [st for st in stmts if not (isinstance(st, ast.Expr) and isinstance(st.value, ast.Constant))
+                 and not isinstance(st, ast.Pass) and not (isinstance(st, ast.Delete) and all(isinstance(t, ast.Name) for t in st.targets))]
         for st in stmts:
-            if isinstance(st, ast.Expr) and isinstance(st.value, ast.Constant):
-                continue
             if not (isinstance(st, ast.Assign) and len(st.targets) == 1 and isinstance(st.targets[0], ast.Name)):
                 return None
     env = {}
